@@ -43,7 +43,7 @@ struct Engine {
   typedef typename std::conditional<I::kSmall, amc::vector<E, Alloc, SizeT>, Vec>::type VecZ;
   static constexpr int NP = 4, NQ = 2, NZ = I::kSmall ? 1 : 0;
   static constexpr bool kInstrAlloc = AllocKind<Alloc>::fam != FAM_NONE || I::kFixed;
-  static constexpr uintmax_t kMaxLen = 40;
+  enum : uintmax_t { kMaxLen = 40 };  // an enumerator, not a static member: no definition needed when bound to a reference before C++17
 
   Slot<Vec> P[NP];
   Slot<Vec2> Q[NQ];
